@@ -297,13 +297,18 @@ func SubscribeWithReplay[T any](
 	}
 
 	// Load last offset for this subscription
-	lastOffset, _ := subStore.LoadOffset(ctx, subscriptionID)
+	lastOffset, err := subStore.LoadOffset(ctx, subscriptionID)
+	if err != nil {
+		// Replaying from the beginning instead would deliver again what the
+		// subscription has already processed.
+		return fmt.Errorf("load subscription offset: %w", err)
+	}
 
 	// Replay missed events
 	var eventType = reflect.TypeOf((*T)(nil)).Elem()
 	// Use consistent type naming with EventType() function
 	typeName := eventTypeNameOf(eventType)
-	err := bus.Replay(ctx, lastOffset, func(stored *StoredEvent) error {
+	err = bus.Replay(ctx, lastOffset, func(stored *StoredEvent) error {
 		// Apply upcasts if available
 		eventData, eventTypeName := stored.Data, stored.Type
 		if bus.upcastRegistry != nil {
@@ -344,6 +349,13 @@ func SubscribeWithReplay[T any](
 		bus.storeMu.RLock()
 		offset := bus.lastOffset
 		bus.storeMu.RUnlock()
+
+		// Nothing has been appended by this bus yet (the append of this event
+		// failed): saving the empty offset would move the subscription back to
+		// the beginning of the log.
+		if offset == OffsetOldest {
+			return
+		}
 
 		subStore.SaveOffset(ctx, subscriptionID, offset)
 	}
